@@ -82,12 +82,44 @@ func c11Worlds(tier string) []*world.Spec {
 		}},
 		{Path: "/m2", Schema: modSchema, Files: []world.FileSpec{{Name: "m.tf", Text: "variable \"in\" {\n}\noutput \"out\" {\n  value = var.in\n}\n"}}},
 	}})
+	// two paths sharing one directory and differing only in language id (a module and its variable files),
+	// in both listing orders
+	tfP := lang.Path{Path: "/mod", LanguageID: "terraform"}
+	tfSchema := func() *schema.BodySchema {
+		return &schema.BodySchema{Blocks: map[string]*schema.BlockSchema{
+			"variable": {Labels: []*schema.LabelSchema{{Name: "name"}}, Body: &schema.BodySchema{Attributes: map[string]*schema.AttributeSchema{
+				"default": {Constraint: schema.AnyExpression{OfType: cty.DynamicPseudoType}, IsOptional: true}}},
+				Address: &schema.BlockAddrSchema{Steps: schema.Address{schema.StaticStep{Name: "var"}, schema.LabelStep{Index: 0}}, ScopeId: "sv", AsReference: true}},
+			"output": {Labels: []*schema.LabelSchema{{Name: "name"}}, Body: &schema.BodySchema{Attributes: map[string]*schema.AttributeSchema{
+				"value": {Constraint: schema.AnyExpression{OfType: cty.DynamicPseudoType}, IsOptional: true}}}},
+		}}
+	}
+	varsSchema := func() *schema.BodySchema {
+		return &schema.BodySchema{AnyAttribute: &schema.AttributeSchema{Constraint: schema.AnyExpression{OfType: cty.DynamicPseudoType}, IsOptional: true,
+			OriginForTarget: &schema.PathTarget{Address: schema.Address{schema.StaticStep{Name: "var"}, schema.AttrNameStep{}}, Path: tfP, Constraints: schema.Constraints{ScopeId: "sv"}}}}
+	}
+	tfFiles := []world.FileSpec{{Name: "main.tf", Text: "variable \"region\" {\n}\nvariable \"zone\" {\n}\noutput \"r\" {\n  value = [var.region, var.zone]\n}\n"}}
+	varsFiles := []world.FileSpec{{Name: "a.tfvars", Text: "region = \"us\"\nzone = \"a\"\nother = 1\n"}}
+	modP := world.PathSpec{Path: "/mod", LangID: "terraform", Schema: tfSchema, Files: tfFiles}
+	varsP := world.PathSpec{Path: "/mod", LangID: "terraform-vars", Schema: varsSchema, Files: varsFiles}
+	out = append(out, &world.Spec{SchemaID: "X:langids-mod-first", HookItems: -1, Paths: []world.PathSpec{modP, varsP}})
+	out = append(out, &world.Spec{SchemaID: "X:langids-vars-first", HookItems: -1, Paths: []world.PathSpec{varsP, modP}})
 	return out
 }
 
-func pathIndex(w *world.World, p string) int {
+func specFiles(sp *world.Spec) []report.FileSpec {
+	var files []report.FileSpec
+	for _, ps := range sp.Paths {
+		for _, f := range ps.Files {
+			files = append(files, report.FileSpec{Path: ps.Path, Name: f.Name, Text: f.Text})
+		}
+	}
+	return files
+}
+
+func pathIndex(w *world.World, p lang.Path) int {
 	for i, x := range w.Paths {
-		if x.Path == p {
+		if x == p {
 			return i
 		}
 	}
@@ -124,7 +156,7 @@ func c11Converse(sp *world.Spec, w *world.World, c *report.Collector, l *report.
 				continue
 			}
 			seen[k] = true
-			text, ok := w.Texts[w.Paths[pi].Path][d.Filename]
+			text, ok := w.Texts[world.PK(w.Paths[pi])][d.Filename]
 			if !ok || d.Start.Byte >= d.End.Byte || d.End.Byte > len(text) {
 				continue
 			}
@@ -134,21 +166,36 @@ func c11Converse(sp *world.Spec, w *world.World, c *report.Collector, l *report.
 			l.Count("calls", 1)
 			os, _ := fr.Val.(decoder.ReferenceOrigins)
 			for _, ro := range os {
-				opi := pathIndex(w, ro.Path.Path)
+				opi := pathIndex(w, ro.Path)
 				if opi < 0 {
 					continue
 				}
-				otext, ok := w.Texts[ro.Path.Path][ro.Range.Filename]
+				otext, ok := w.Texts[world.PK(ro.Path)][ro.Range.Filename]
 				if !ok {
 					continue
 				}
 				gr := run.Call(w, run.Query{Kind: run.GotoDef, Path: opi, File: ro.Range.Filename, Pos: run.PosAt([]byte(otext), ro.Range.Start.Byte)})
 				l.Count("calls", 1)
 				l.Count("converse_checks", 1)
+				// the reported origin is an origin of the path it is attributed to
+				exists := false
+				if octx := w.Ctx(opi); octx != nil {
+					for _, oo := range octx.ReferenceOrigins {
+						if oo.OriginRange() == ro.Range {
+							exists = true
+							break
+						}
+					}
+				}
+				if !exists {
+					c.Add(&report.Violation{Clause: "inverse:find-references-reports-origin-its-path-does-not-hold", Site: "find_refs", Check: "c11", SchemaID: sp.SchemaID, Files: specFiles(sp),
+						Detail: fmt.Sprintf("find-references at the definition %s (path %v) reports an origin %s attributed to path %v, which holds no origin with that range", fmtRange(d), w.Paths[pi], fmtRange(ro.Range), ro.Path)})
+					continue
+				}
 				found := false
 				if ts, ok := gr.Val.(decoder.ReferenceTargets); ok {
 					for _, t := range ts {
-						if t == nil || t.Path.Path != w.Paths[pi].Path {
+						if t == nil || t.Path != w.Paths[pi] {
 							continue
 						}
 						// find-references over-approximates by design inside one path (at a position not
@@ -185,7 +232,7 @@ func c11World(sp *world.Spec, c *report.Collector, l *report.Local) {
 		}
 		for _, o := range ctx.ReferenceOrigins {
 			or := o.OriginRange()
-			text, ok := w.Texts[w.Paths[pi].Path][or.Filename]
+			text, ok := w.Texts[world.PK(w.Paths[pi])][or.Filename]
 			if !ok || or.Start.Byte < 0 || or.End.Byte > len(text) || or.Start.Byte >= or.End.Byte {
 				continue
 			}
@@ -226,14 +273,14 @@ func c11World(sp *world.Spec, c *report.Collector, l *report.Local) {
 						}
 						switch x := o2.(type) {
 						case reference.LocalOrigin:
-							allowed[w.Paths[pi].Path] = true
+							allowed[world.PK(w.Paths[pi])] = true
 						case reference.PathOrigin:
-							allowed[x.TargetPath.Path] = true
+							allowed[world.PK(x.TargetPath)] = true
 						case reference.DirectOrigin:
-							allowed[x.TargetPath.Path] = true
+							allowed[world.PK(x.TargetPath)] = true
 						}
 					}
-					if !allowed[t.Path.Path] {
+					if !allowed[world.PK(t.Path)] {
 						bad("origin:resolved-in-wrong-path", "goto_def", fmt.Sprintf("origin(s) at %s may resolve in paths %v but a declaration in %s is reported", fmtRange(or), allowed, t.Path.Path))
 					}
 					// (b) block-local names resolve only to the enclosing block's declaration
@@ -255,11 +302,11 @@ func c11World(sp *world.Spec, c *report.Collector, l *report.Local) {
 					if t.DefRangePtr == nil {
 						continue
 					}
-					tpi := pathIndex(w, t.Path.Path)
+					tpi := pathIndex(w, t.Path)
 					if tpi < 0 {
 						continue
 					}
-					dtext, ok := w.Texts[t.Path.Path][t.DefRangePtr.Filename]
+					dtext, ok := w.Texts[world.PK(t.Path)][t.DefRangePtr.Filename]
 					if !ok {
 						continue
 					}
@@ -281,7 +328,7 @@ func c11World(sp *world.Spec, c *report.Collector, l *report.Local) {
 						os, _ := fr.Val.(decoder.ReferenceOrigins)
 						found := false
 						for _, ro := range os {
-							if ro.Path.Path == w.Paths[pi].Path && ro.Range == or {
+							if ro.Path == w.Paths[pi] && ro.Range == or {
 								found = true
 							}
 						}
